@@ -249,6 +249,47 @@ def run(R, tier):
                             f'graded mode: x.filter().grade({g}) for x = {dict(zip(ks, vals))} in Algebra(signature={sig}, graded=True) is {got}'
                             f'{" with keys of other grades " + str(stray) if stray else ""}; default mode gives {want}')
                 break
+    # ---- graded mode: functions registered with symbolic=True of one, two and three arguments, called with symbolic operands ----
+    import sympy as _sp
+    for it in range(4 if tier == 'quick' else 40):
+        d = rng.choice((2, 3))
+        sig = [0] + [rng.choice((1, -1)) for _ in range(d)] if it % 2 == 0 else [rng.choice((1, -1, 0)) for _ in range(d + 1)]
+        gsel = [tuple(sorted(rng.sample(range(len(sig) + 1), rng.randint(1, 2)))) for _ in range(3)]
+        outs = {}
+        for graded in (False, True):
+            A_ = algs.make_impl({'sig': sig, 'graded': graded})
+            null_ = A_.blades[list(A_.canon2bin)[1]]        # the first generator (null in half of the algebras)
+            f1 = A_.register(symbolic=True)(lambda x: x * null_)
+            f2 = A_.register(symbolic=True)(lambda x, y: (x * y) ^ null_)
+            f3 = A_.register(symbolic=True)(lambda a_, b_, c_: (a_ + b_) * c_)
+            xs = [A_.multivector(name=nm_, grades=g_) for nm_, g_ in zip('uvw', gsel)]
+            res = {}
+            for label, call in (('f1(u) = u * e_first', lambda: f1(xs[0])), ('f2(u, v) = (u * v) ^ e_first', lambda: f2(xs[0], xs[1])),
+                                ('f3(u, u, w) = (u + u) * w', lambda: f3(xs[0], xs[0], xs[2])), ('f3(u, u, e_first)', lambda: f3(xs[0], xs[0], null_))):
+                try:
+                    r_ = call()
+                    res[label] = ('ok', {int(k_): _sp.expand(_sp.sympify(v_)) for k_, v_ in zip(r_.keys(), r_.values())}, tuple(int(k_) for k_ in r_.keys()),
+                                  tuple(A_.indices_for_grades[r_.grades]) if graded else None)
+                except Exception as e:  # noqa
+                    res[label] = ('err', f'{type(e).__name__}: {e}'[:100], None, None)
+            outs[graded] = res
+        for label in outs[False]:
+            R.count('graded-registered-symbolic'); R.case(('graded-registered', tuple(sig), tuple(gsel), label), True)
+            d0, g0 = outs[False][label], outs[True][label]
+            if d0[0] != 'ok':
+                continue
+            nz = lambda m_: {k_: v_ for k_, v_ in m_.items() if v_ != 0}
+            bad_ = None
+            if g0[0] != 'ok':
+                bad_ = f'raises {g0[1]} in graded mode'
+            elif nz(g0[1]) != nz(d0[1]):
+                bad_ = f'graded result {nz(g0[1])} differs from the default-mode result {nz(d0[1])}'
+            elif g0[2] != g0[3]:
+                bad_ = f'graded result stores the keys {g0[2]}, complete grades are {g0[3]}'
+            if bad_:
+                R.violation({'clause': 'differs-under-options', 'graded': True, 'null_generator': 0 in sig, 'registered': True},
+                            {'signature': sig, 'options': 'graded=True', 'function': label, 'grades': [list(g_) for g_ in gsel]},
+                            f'graded mode: the function {label} registered with symbolic=True, called with symbolic operands of grades {gsel} in Algebra(signature={sig}): {bad_}')
     # ---- graded mode against Model/Graded.v (completion of grades), evaluated in Coq ----
     pool = algs.AlgPool()
     cases = []
